@@ -9,7 +9,11 @@
 (***************************************************************************)
 EXTENDS LSM, Json
 
-CONSTANTS L0Hold,   \* shaping: L0->Lbase is offered only once level 0 holds this many tables
+CONSTANTS Wide,     \* 0: start empty; N > 0: start with N single-key tables k1..kN (versions 1..N) on the last
+                    \* level - the layout N flushes of one key each, each followed by an L0->Lbase
+                    \* compaction, produce - so that compactions with many bottom tables (split
+                    \* sub-compactions) are reached within the bound
+          L0Hold,   \* shaping: L0->Lbase is offered only once level 0 holds this many tables
           MtMax     \* shaping: the memtable is rotated before it holds more entries than this
 VARIABLE act
 gvars == <<vars, act>>
@@ -38,7 +42,14 @@ GNext ==
     \/ \E i \in Levels : LevelDown(i) /\ A("LevelDown", i)
     \/ LmaxRewrite /\ A("LmaxRewrite", 0)
 
-GInit == Init /\ act = [name |-> "init", arg |-> 0]
+WideInit ==
+    /\ mt = {} /\ imm = <<>> /\ L0 = <<>>
+    /\ lv = [i \in Levels |-> IF i = MaxLevel
+                              THEN {[id |-> k, ents |-> {[k |-> k, ts |-> k, kind |-> "val"]}, big |-> FALSE, aged |-> TRUE] : k \in 1..Wide}
+                              ELSE {}]
+    /\ nextTs = Wide + 1 /\ discardTs = 0 /\ nextId = Wide + 1
+    /\ written = {[k |-> k, ts |-> k, kind |-> "val"] : k \in 1..Wide}
+GInit == (IF Wide = 0 THEN Init ELSE WideInit) /\ act = [name |-> "init", arg |-> 0]
 GenSpec == GInit /\ [][GNext]_gvars
 
 \* evaluated on every transition; imm must be empty in the pre-state because the harness
